@@ -246,6 +246,13 @@ func gen(seed uint64, tier string) Scenario {
 	sc.Methods = genMethods(r)
 	sc.User = genUser(r)
 	sc.Pass = genPass(r)
+	// a backslash in the user name (DOMAIN\user): within the quantifier ("without ':' or '"'");
+	// hash-derived so that no other choice moves
+	if x := core.HS(seed, "c10.backslash", "", 0); x%100 < 12 {
+		rs := []rune(sc.User)
+		pos := int((x >> 8) % uint64(len(rs)+1))
+		sc.User = string(rs[:pos]) + "\\" + string(rs[pos:])
+	}
 	sc.Record = r.Bool(0.3)
 	sc.URL = genURL(r, sc.Record)
 	sc.Medias = r.Range(1, 3)
